@@ -451,6 +451,7 @@ pub fn def() -> PropDef {
         needs_pairing: false,
         subs: vec![
             Box::new(crate::engine::EnumSub { name: "long-history", rule: super::longhist::RULE, run: run_long_history, replay: super::longhist::replay, exhaustive: false }),
+            Box::new(crate::engine::EnumSub { name: "two-input-bursts", rule: super::longhist::BURST_RULE, run: run_two_input_bursts, replay: super::longhist::replay_burst, exhaustive: false }),
             Box::new(Sub { name: "fq2", rule: "Fq2 add/sub/neg/double/mul/square/inverse/mul_by_nonresidue/norm/frobenius/is_zero/==", quick: 120_000, thorough: 1_000_000, strategy: || boxed(fq2_case_strategy()), check: check_fq2 }),
             Box::new(Sub { name: "fq6", rule: "Fq6 ring ops, inverse, mul_by_nonresidue (x v), mul_by_1, mul_by_01, frobenius", quick: 48_000, thorough: 500_000, strategy: || boxed(fq6_case_strategy()), check: check_fq6 }),
             Box::new(Sub { name: "fq12", rule: "Fq12 ring ops, inverse, conjugate (= x^(q^6)), mul_by_014, frobenius", quick: 48_000, thorough: 500_000, strategy: || boxed(fq12_case_strategy()), check: check_fq12 }),
